@@ -530,11 +530,15 @@ def r6(ctx):
             callee = prog.fn(ev.callee)
             base = estr(unwrap(unwrap(ev.args[2])['b'])) if unwrap(ev.args[2]).get('k') == 'mem' else None
             wrong = []
+            used = []
             for i in range(3, len(ev.args)):
                 pn = callee.params[i]['n']
                 au = unwrap(ev.args[i])
-                if not (last_field(au) == ('qb_log_filter', pn) and au.get('k') == 'mem' and estr(unwrap(au['b'])) == base):
+                lf = last_field(au)
+                if not (lf and lf[0] == 'qb_log_filter' and au.get('k') == 'mem' and estr(unwrap(au['b'])) == base) or lf[1] in used:
                     wrong.append('%s = %s' % (pn, estr(ev.args[i])))
+                else:
+                    used.append(lf[1])
             ctx.check('R6', 'replay:%s:matcher-arguments-are-the-stored-filter' % g.name, not wrong, ev,
                       'the stored filter is re-applied with its own type, text, regex and priority range',
                       'a stored filter is re-applied with %s instead of its own field: the matcher sees a different filter than the one installed (a regex filter '
